@@ -624,10 +624,9 @@ class UrwidImageScreen(urwid.raw_display.Screen):
         screen_canv = self._ti_screen_canv
 
         if not isinstance(screen_canv, urwid.CompositeCanvas):
-            if self._ti_image_cviews:
-                self.clear_images()
-                self._ti_image_cviews.clear()
-            return
+            # The canvas of a topmost widget that is not a container (possibly, an
+            # image widget); becomes the only canvas view.
+            screen_canv = urwid.CompositeCanvas(screen_canv)
 
         def process_shard_tails():
             nonlocal col
